@@ -346,9 +346,9 @@ def bounded(ctx):
                                   "one representative per distinct state extended")
         complete, nstates, fails = _explore(ctx, 6, specs_t, 1)
         ctx.done(exhaustive=complete, note="distinct states %d; %s" % (nstates, fails.note()))
-        ctx.check("explore_2sec", "all histories up to depth 6 over <= 2 sections (second one created by an operation), width 10, 6 texts "
-                                  "(lengths 3,9,10,11,21 and a 2-line text); one representative per distinct state extended")
-        complete, nstates, fails = _explore(ctx, 6, specs_q, 2)
+        ctx.check("explore_2sec", "all histories up to depth 6 over <= 2 sections (second one created by an operation), width 10, 5 texts "
+                                  "(lengths 3,10,11,21 and a 2-line text); one representative per distinct state extended")
+        complete, nstates, fails = _explore(ctx, 6, [sp for sp in specs_q if sp != (W - 1,)], 2)
         ctx.done(exhaustive=complete, note="distinct states %d; %s" % (nstates, fails.note()))
         ctx.check("explore_3sec", "histories up to depth 6 on three sections (created up front), width 10; at most 600 seeded representative states extended per layer (sampled)")
         complete, nstates, fails = _explore(ctx, 6, specs_q, 3, max_states_per_layer=600, initial=3)
